@@ -394,6 +394,8 @@ def install(sim: Sim, image_model: str = "fork", cpu_count: int = 4) -> None:
     if _STATE["installed"]:
         raise HarnessError("SimPool already installed")
     record_import_scalars()
+    if os.environ.get("VERIF_ONLY_FORK"):  # experiments only: what would the checks see on a fork-only platform
+        image_model = "fork"
     _STATE.update(sim=sim, installed=True, image_model=image_model, cpu_count=cpu_count, pools=0, pid=0)
     saved = _STATE["saved"] = {}
     saved["mp.Pool"] = multiprocessing.Pool
